@@ -72,6 +72,8 @@ def build_cases(ctx):
 def run(ctx, res):
     cases = build_cases(ctx)
     root = scenarios_a.assign_persist(cases, "c14", lambda i, c: c.pop("_fmt", None) or ["json", "pickle"][(i // 3) % 2])
+    from harness.impl import slowsave
+    slowsave.run_all(res, ID)       # a scheduled save still being written (own thread) when stop() is called: real threads
     try:
         recs = gwcheck.run_cases(ctx, res, cases, MONITORS, SCOPE, "c14")
     finally:
@@ -93,6 +95,10 @@ def run(ctx, res):
 
 
 def replay(ctx, case):
+    c0 = case["case"] if "case" in case else case
+    if c0.get("kind") == "slow-save":
+        from harness.impl import slowsave
+        return slowsave.replay(c0, ID)
     c, root = scenarios_a.relocated(case["case"] if "case" in case else case, "c14")
     try:
         return gwcheck.replay_case(ctx, c)
